@@ -1,5 +1,9 @@
 """Discrimination run: seeded mutants must be reported, behaviour-preserving variants must stay silent.
 
+Besides the hand-written catalogue (sa/selftest/cat_cXX.py) the run replays the changes under /verif/seeded that fresh
+sub-agents produced from the property text alone (each confirmed against the real code: breaks the property, passes the
+suite) and the behaviour-preserving variant patches kept there.
+
 Each catalogue entry is a textual edit of one prysm source file, applied to a scratch copy of the
 *current* tree (under $TMPDIR, removed immediately).  The analysis of the scratch copy is the very
 same static check; nothing is executed.  Results are MUTANT-KILLED / VARIANT-SILENT lines; a
@@ -25,22 +29,59 @@ def _catalogue(prop):
     return mod.CATALOGUE
 
 
+SEEDED = os.path.join(os.path.dirname(os.path.dirname(os.path.dirname(os.path.abspath(__file__)))), 'seeded')
+
+
+def _seeded(prop):
+    """Seeded changes (written by fresh sub-agents, confirmed against the real code) that this property's check reports,
+    and behaviour-preserving variant patches it must stay silent on: catalogue entries of kind 'seed' / 'seedvariant'."""
+    import json
+    out = []
+    if not os.path.isdir(SEEDED):
+        return out
+    for name in sorted(os.listdir(SEEDED)):
+        d = os.path.join(SEEDED, name)
+        mp, pp = os.path.join(d, 'meta.json'), os.path.join(d, 'patch.diff')
+        if not (os.path.isfile(mp) and os.path.isfile(pp)):
+            continue
+        try:
+            meta = json.load(open(mp))
+        except ValueError:
+            continue
+        if meta.get('kind') == 'variant':
+            if prop in meta.get('silent_for', []):
+                out.append(('seedvariant', pp, '', '', '', 'seeded/%s (behaviour-preserving): %s' % (name, meta.get('what', '')[:80])))
+        elif prop in meta.get('caught_by', {}):
+            out.append(('seed', pp, '', '', '', 'seeded/%s: %s' % (name, (meta.get('breaks') or '')[:80])))
+    return out
+
+
 def _run_one(job):
     prop, root, idx, entry = job
     kind, relfile, old, new, expect = entry[:5]
-    src = os.path.join(root, relfile)
-    try:
-        text = open(src, encoding='utf-8').read()
-    except OSError:
-        return (idx, 'skipped', 'file missing')
-    if text.count(old) != 1:
-        return (idx, 'skipped', 'anchor text occurs %d times' % text.count(old))
+    text = None
+    if kind in ('seed', 'seedvariant'):
+        import subprocess
+    else:
+        src = os.path.join(root, relfile)
+        try:
+            text = open(src, encoding='utf-8').read()
+        except OSError:
+            return (idx, 'skipped', 'file missing')
+        if text.count(old) != 1:
+            return (idx, 'skipped', 'anchor text occurs %d times' % text.count(old))
     tmp = tempfile.mkdtemp(prefix='sa_mut_')
     try:
         shutil.copytree(os.path.join(root, 'prysm'), os.path.join(tmp, 'prysm'),
                         ignore=shutil.ignore_patterns('__pycache__', '*.pyc'))
-        with open(os.path.join(tmp, relfile), 'w', encoding='utf-8') as fh:
-            fh.write(text.replace(old, new))
+        if kind in ('seed', 'seedvariant'):
+            r = subprocess.run(['git', 'apply', '-p1', relfile], cwd=tmp, capture_output=True, text=True)
+            if r.returncode != 0:
+                return (idx, 'skipped', 'patch no longer applies')
+            kind = 'mutant' if kind == 'seed' else 'variant'
+        else:
+            with open(os.path.join(tmp, relfile), 'w', encoding='utf-8') as fh:
+                fh.write(text.replace(old, new))
         from sa.cli import run_property
         from sa.core.db import AnalysisError
         from sa.core.norm import NormError
@@ -71,7 +112,7 @@ def _run_one(job):
 
 
 def discrimination(prop, root, jobs=None):
-    cat = _catalogue(prop)
+    cat = list(_catalogue(prop)) + _seeded(prop)
     if not cat:
         print('DISCRIMINATION %s: no catalogue' % prop)
         return 0
@@ -87,11 +128,11 @@ def discrimination(prop, root, jobs=None):
         tag = {'killed': 'MUTANT-KILLED', 'silent': 'VARIANT-SILENT', 'skipped': 'SKIPPED',
                'survived': 'MUTANT-SURVIVED', 'noisy': 'VARIANT-NOISY', 'error': 'MUTANT-ERROR'}[status]
         print('%s %s #%d %s  [%s]' % (tag, prop, idx, label.replace('\n', ' '), detail))
-        if status in ('survived', 'noisy') or (status == 'error' and entry[0] == 'variant'):
+        if status in ('survived', 'noisy') or (status == 'error' and entry[0] in ('variant', 'seedvariant')):
             bad += 1
         if status == 'error' and entry[0] == 'mutant' and len(entry) > 6 and entry[6] == 'exit2-ok':
             pass
-        elif status == 'error' and entry[0] == 'mutant':
+        elif status == 'error' and entry[0] in ('mutant', 'seed'):
             bad += 1
     print('DISCRIMINATION %s: %s' % (prop, ', '.join('%s=%d' % kv for kv in sorted(counts.items()))))
     if bad:
